@@ -286,3 +286,7 @@ func UnmarshalOpaque(bz []byte, ptr interface{}) bool { panic("rt.UnmarshalOpaqu
 func UnpackAnyOpaque(any interface{}, iface interface{}) bool {
 	panic("rt.UnpackAnyOpaque: engine only")
 }
+
+func UnmarshalInterfaceOpaque(bz []byte, ptr interface{}) bool {
+	panic("rt.UnmarshalInterfaceOpaque: engine only")
+}
